@@ -66,6 +66,7 @@ func loadProgram() (*vc.Program, error) {
 			return nil, err
 		}
 	}
+	p.ApplySweepsAndTypeInvs()
 	return p, nil
 }
 
@@ -159,7 +160,7 @@ func main() {
 		for _, rr := range results {
 			ok := rr.Ans.Status == solve.Unsat
 			if rr.Ob.Cover {
-				ok = rr.Ans.Status != solve.Unsat
+				ok = rr.Ans.Status != solve.Unsat || !strings.Contains(rr.Ob.Name, "/cover#pre")
 			}
 			mark := "ok  "
 			if !ok {
